@@ -474,3 +474,47 @@ def place_rules(repo, res, RULE="OCC-PLACE"):
         except Undecided as x:
             raise AnalysisError("%s [%s]: %s" % (qn, lab, x))
         res.check(RULE, "%s [%s]" % (qn, lab), not bad, mod, fn, "%s [%s]: %s" % (qn, lab, "; ".join(bad[:2])), "the occupancy is not the shape placed at the state / does not enclose the shape for every admissible position and orientation", qualname=qn)
+
+
+def initial_state_rule(repo, res, RULE="OCC-PLACE"):
+    """Obstacle.initial_state = s, evaluated: afterwards the obstacle holds s and its initial occupancy is the
+    occupancy of (its own shape, s) — for an obstacle with wheelbase lengths the articulated shape group of
+    (its shapes, s, its wheelbase lengths)."""
+    ocls = repo.cls(O, "Obstacle")
+    owner, pr = repo.find_prop(ocls, "initial_state")
+    fn = pr.get("set") if pr else None
+    if fn is None:
+        raise AnalysisError("Obstacle.initial_state setter missing")
+    qn = "Obstacle.initial_state[set]"
+    for label, wheelbase in (("plain obstacle", False), ("obstacle with wheelbase lengths", True)):
+        ev = _ev(repo, opaque={"occupancy_shape_from_state", "shape_group_occupancy_shape_from_state"})
+        ev.assume_valid = True
+        shapes = ListV([Obj(None, {}, closed=True, label="member shape")])
+        shape = Obj(None, {"shapes": shapes, "_shapes": shapes}, closed=True, label="the obstacle's shape")
+        old = Obj(None, {"time_step": 0}, closed=True, label="old initial state")
+        new = Obj(repo.cls("commonroad/scenario/state.py", "InitialState"), {"time_step": 3}, label="new initial state")
+        f = {"_obstacle_shape": shape, "_initial_state": old, "_initial_occupancy_shape": Obj(None, {}, closed=True, label="old occupancy"), "_obstacle_id": 9}
+        wb = ListV([Sym("wheelbase", "num")])
+        if wheelbase:
+            f["wheelbase_lengths"] = wb
+        me = Obj(repo.cls(O, "StaticObstacle"), f, closed=True, label="obstacle")
+        bad = []
+        try:
+            ev.call_fn(FuncV(fn, self_val=me, cls=owner, mod=owner.mod), [new], {}, fn)
+            if me.fields.get("_initial_state") is not new:
+                bad.append("the obstacle holds %s as its initial state" % show(me.fields.get("_initial_state")))
+            occ = me.fields.get("_initial_occupancy_shape")
+            if not isinstance(occ, Ctor):
+                bad.append("the initial occupancy is %s" % show(occ))
+            else:
+                a = list(occ.args.values())
+                if wheelbase:
+                    if not (occ.name == "shape_group_occupancy_shape_from_state" and len(a) == 3 and a[0] is shapes and a[1] is new and a[2] is wb):
+                        bad.append("the initial occupancy is %s, expected the shape group of (own shapes, new state, own wheelbase lengths)" % show(occ))
+                elif not (occ.name == "occupancy_shape_from_state" and len(a) == 2 and a[0] is shape and a[1] is new):
+                    bad.append("the initial occupancy is %s, expected the occupancy of (own shape, new state)" % show(occ))
+        except _Raise as x:
+            bad.append("raises %s" % x.what)
+        except Undecided as x:
+            raise AnalysisError("%s [%s]: %s" % (qn, label, x))
+        res.check(RULE, "%s [%s]: stores the state, initial occupancy = occupancy of (own shape, that state)" % (qn, label), not bad, owner.mod, fn, "%s [%s]: %s" % (qn, label, "; ".join(bad[:2])), "the initial occupancy is not the obstacle's shape placed at the initial state being stored", qualname=qn)
